@@ -26,7 +26,9 @@ class VLoop(asyncio.SelectorEventLoop):
 class RTSim(mosaik_api_v3.Simulator):
     def __init__(self):
         super().__init__({'api_version': '3.0', 'type': 'time-based', 'models': {'M': {'public': True, 'params': [], 'attrs': ['i', 'po', 'ti']}}})
-    def init(self, sid, time_resolution=1.0, step_size=1, duration=0.0, typ='time-based', events=None, self_steps=True, flag=True, external=None, durations=None, setup_delay=0.0, none_at=None):
+    def init(self, sid, time_resolution=1.0, step_size=1, duration=0.0, typ='time-based', events=None, self_steps=True, flag=True, external=None, durations=None, setup_delay=0.0, none_at=None, gd_durations=None, silent=False):
+        self.gd_durs = gd_durations or {}     # per step time: how long the get_data request of that step takes
+        self.silent = silent                  # get_data returns no values (nothing is triggered downstream)
         self.none_at = set(none_at or [])       # step times whose reply is None whatever self_steps says (C13's real-time family)
         self.setup_delay = setup_delay        # setup_done() takes that long (a simulator that loads data before the run starts)
         self.durs = durations or {}        # per step time: how long that step takes (overrides duration)
@@ -48,6 +50,7 @@ class RTSim(mosaik_api_v3.Simulator):
         asyncio.ensure_future(self.mosaik.set_event(ev)).add_done_callback(done)
     def step(self, t, inputs, max_advance):
         LOG.append(('BEGIN', self.sid, t, asyncio.get_event_loop().time()))
+        self.t_now = t
         for ev in self.events.pop(str(t), []):        # (each list is used once: a re-step at the same time does not ask again)
             try:
                 yield self.mosaik.set_event(ev)
@@ -59,7 +62,12 @@ class RTSim(mosaik_api_v3.Simulator):
         LOG.append(('END', self.sid, t, asyncio.get_event_loop().time()))
         if t in self.none_at: return None
         return (t + self.ss) if self.self_steps else None
-    def get_data(self, outputs): return {'e': {'po': 0}}
+    def get_data(self, outputs):
+        d = self.gd_durs.get(str(self.t_now))
+        if d:
+            LOG.append(('GD', self.sid, self.t_now, asyncio.get_event_loop().time()))
+            yield asyncio.sleep(d)
+        return {'e': {}} if self.silent else {'e': {'po': 0}}
 
 
 def trial(cfg):
@@ -69,7 +77,7 @@ def trial(cfg):
     w = mosaik.World({'S': {'python': 'harness.props.c17:RTSim'}}, skip_greetings=True, asyncio_loop=loop, time_resolution=cfg['res'])
     ents = []
     for i, s in enumerate(cfg['sims']):
-        kw = dict(step_size=s.get('step_size', 1), duration=s.get('duration', 0.0), typ=s.get('typ', 'time-based'), events=s.get('events'), self_steps=s.get('self_steps', True), flag=s.get('flag', True), external=s.get('external'), durations=s.get('durations'), setup_delay=s.get('setup_delay', 0.0), none_at=s.get('none_at'))
+        kw = dict(step_size=s.get('step_size', 1), duration=s.get('duration', 0.0), typ=s.get('typ', 'time-based'), events=s.get('events'), self_steps=s.get('self_steps', True), flag=s.get('flag', True), external=s.get('external'), durations=s.get('durations'), setup_delay=s.get('setup_delay', 0.0), none_at=s.get('none_at'), gd_durations=s.get('gd_durations'), silent=s.get('silent', False))
         if s.get('group'):
             with w.group(): ents.append(w.start('S', sim_id=f'S{i}', **kw).M())
         else:
@@ -83,6 +91,16 @@ def trial(cfg):
         if s.get('typ') == 'event-based' and s.get('initial', True): w.set_initial_event(f'S{i}', 0)
     real = sched.perf_counter; sched.perf_counter = loop.time
     msgs = []; hid = logger.add(lambda m: msgs.append(str(m)), level='WARNING')
+    real_check = sched.rt_check
+    def rt_check(rt_factor, rt_start, rt_strict, sim):
+        # (observation only: WHICH simulator's step is reported as too slow)
+        n0 = sum('too slow' in m for m in msgs)
+        try:
+            real_check(rt_factor, rt_start, rt_strict, sim)
+        except RuntimeError:
+            LOG.append(('TOOSLOW', sim.sid, sim.last_step.time)); raise
+        if sum('too slow' in m for m in msgs) > n0: LOG.append(('TOOSLOW', sim.sid, sim.last_step.time))
+    sched.rt_check = rt_check
     def alarm(sig, frm): raise TimeoutError('run() did not terminate (watchdog)')
     signal.signal(signal.SIGALRM, alarm); signal.alarm(10)
     try:
@@ -96,7 +114,7 @@ def trial(cfg):
         except BaseException: pass
     finally:
         signal.alarm(0)
-        sched.perf_counter = real; logger.remove(hid)
+        sched.perf_counter = real; sched.rt_check = real_check; logger.remove(hid)
     return dict(outcome=out, log=list(LOG), too_slow=sum('too slow' in m for m in msgs), ignored=sum('after simulation end' in m for m in msgs))
 
 
@@ -126,7 +144,7 @@ def monitor(cfg, r):
     if r['outcome'] == 'HANG': bad.append('run() did not terminate')
     elif r['outcome'] != 'returned' and not (expected_fail and r['outcome'].startswith('RuntimeError')):
         bad.append(f"real-time run with compliant simulators failed: {r['outcome']}")
-    if instant and r['too_slow']: bad.append(f"simulators answer instantly but {r['too_slow']} too-slow reports were issued")
+    if instant and r['too_slow']: bad.append(f"simulators answer instantly but {r['too_slow']} too-slow reports were issued" + (f" (for {sorted({(l[1], l[2]) for l in r['log'] if l[0] == 'TOOSLOW'})})" if any(l[0] == 'TOOSLOW' for l in r['log']) else ''))
     if instant and r['outcome'].startswith('RuntimeError'): bad.append('rt_strict aborted a run whose simulators answer instantly')
     # external events: a future t < until causes a step at t; t >= until is ignored with a warning
     for n_, l in enumerate(r['log']):
@@ -215,6 +233,13 @@ def configs(tier, rng):
         out.append(dict(rt=rt, res=1.0, until=4, strict=False, sims=[{'duration': rt * 1.5}, {}], connect=[(0, 1)]))     # genuinely slow
         out.append(dict(rt=rt, res=1.0, until=4, strict=True, sims=[{'duration': rt * 1.5}, {}], connect=[(0, 1)]))
         out.append(dict(rt=rt, res=1.0, until=4, strict=True, sims=[{'duration': rt * 0.5}, {}], connect=[(0, 1)]))      # slow but within the period
+    for rt in rts:
+        # a step that is answered in time whose OUTPUTS take a while to collect (a get_data of half or three quarters of a
+        # period; nothing downstream is triggered): the step is not too slow, and the next step still begins on time
+        sink = {'typ': 'event-based', 'self_steps': False, 'initial': False}
+        for strict in (False, True):
+            out.append(dict(rt=rt, res=1.0, until=6, strict=strict, sims=[{'silent': True, 'gd_durations': {'2': rt * 0.5}}, sink], connect=[(0, 1, 'trig')]))
+            out.append(dict(rt=rt, res=1.0, until=7, strict=strict, sims=[{'silent': True, 'step_size': 2, 'gd_durations': {'2': rt * 0.75, '4': rt * 1.75}}, sink], connect=[(0, 1, 'trig')]))
     for evs in ([2], [4], [9], [3, 7]):
         # set_event outside real-time mode is an error - whatever the requested time (before, at or after until)
         out.append(dict(rt=None, res=1.0, until=4, strict=False, sims=[{'typ': 'event-based', 'self_steps': False, 'events': {'0': evs}}, {}], connect=[]))
@@ -273,7 +298,10 @@ def run(out, info, tier, seed):
         r = trial(cfg); n += 1
         hist[r['outcome'].split(':')[0]] += 1
         fails = monitor(cfg, r)
-        if fails and cfg.get('connect') and 'F20' in kf and all(('too-slow reports' in f) or ('rt_strict aborted' in f) or ('RuntimeError' in f) for f in fails):
+        consumers = {f'S{c[1]}' for c in cfg.get('connect', [])}
+        late_sims = {l[1] for l in r['log'] if l[0] == 'TOOSLOW'}
+        # (F20 is about CONSUMERS: a simulator that waits for a predecessor's output begins one polling period late)
+        if fails and cfg.get('connect') and late_sims <= consumers and 'F20' in kf and all(('too-slow reports' in f) or ('rt_strict aborted' in f) or ('RuntimeError' in f) for f in fails):
             f20.append(fails[0]); fails = []
         if fails: violations.append(dict(kind='rt', config=cfg, observed=fails[:3], outcome=r['outcome']))
         if cfg['rt'] is not None and any(l[0] == 'BEGIN' and l[2] >= 2 for l in r['log']): nontriv += 1
